@@ -3,7 +3,7 @@
    definitions at Qops on states captured from the implementation. *)
 From Coq Require Import Reals List Arith Lia Lra.
 From TLV Require Import Base.Shape Base.PyList Base.Tensor Base.Ops Base.RSum Model.Descent
-  Proofs.DescentProofs Proofs.DescentProofsHals Proofs.DescentProofsLink Proofs.DescentProofsOrth Proofs.DescentProofsNorm Proofs.DescentProofsNN Proofs.DescentProofsReg.
+  Proofs.DescentProofs Proofs.DescentProofsHals Proofs.DescentProofsLink Proofs.DescentProofsOrth Proofs.DescentProofsNorm Proofs.DescentProofsNN Proofs.DescentProofsReg Proofs.DescentProofsTucker Proofs.DescentProofsCmtf Proofs.DescentProofsTkReg Proofs.DescentProofsTR.
 Import ListNotations.
 Open Scope R_scope.
 
@@ -240,6 +240,112 @@ Theorem C07_cpreg_block_minimises : forall (Xsl : list (tensor R)) (ysl : list R
 Proof. exact cpreg_block_minimises_l. Qed.
 Print Assumptions C07_cpreg_block_minimises.
 
+(* Tucker objective, all orders and mode subsets (an undecomposed mode carries the identity): if every factor has orthonormal
+   columns then  ||X - core x_k U_k||^2 = ||X||^2 - ||core||^2  for  core = X x_k U_k'  (the Kronecker product of matrices with
+   orthonormal columns has orthonormal columns) - this is the error formula partial_tucker reports *)
+Theorem C07_tucker_residual : forall (X : tensor R) (rs : list nat) (Us : list (list (list R))),
+  orth_all (shape X) rs Us ->
+  tk_hooi_obj Rops X rs Us = rsum (prod (shape X)) (fun o => (nth o (data X) 0)^2) - tk_core_norm2 Rops X rs Us.
+Proof. exact tucker_residual. Qed.
+Print Assumptions C07_tucker_residual.
+
+(* HOOI block on the Tucker objective itself.  NAMED HYPOTHESIS (Ky Fan's maximum principle for the leading left singular vectors
+   of the mode-k unfolding of X x_{j<>k} U_j', stated on the core): the new factor maximises the norm of the core among the
+   replacements of factor k by matrices with orthonormal columns *)
+Theorem C07_hooi_tucker_block_descent_partial : forall (X : tensor R) (rs : list nat) (Us : list (list (list R))) (k : nat) (Unew : list (list R)),
+  orth_all (shape X) rs Us -> orth_all (shape X) rs (set_nth k Unew Us) ->
+  (forall Wk : list (list R), orth_all (shape X) rs (set_nth k Wk Us) ->
+      tk_core_norm2 Rops X rs (set_nth k Wk Us) <= tk_core_norm2 Rops X rs (set_nth k Unew Us)) ->
+  tk_hooi_obj Rops X rs (set_nth k Unew Us) <= tk_hooi_obj Rops X rs Us.
+Proof. exact hooi_tucker_block_descent_partial. Qed.
+Print Assumptions C07_hooi_tucker_block_descent_partial.
+
+(* coupled block of coupled_matrix_tensor_3d_factorization (every order of X): a factor of the coupled mode satisfying the normal
+   equations  A (w (.) Hadamard of Grams (.) w + V'V) = MTTKRP + Y V  of the stacked least-squares problem minimises
+   ||X - [[w; A, ..]]||^2 + ||Y - A V'||^2 over ALL matrices (the system is proved symmetric positive semidefinite) *)
+Theorem C07_cmtf_coupled_block_minimises : forall (X : tensor R) (Y : list (list R)) (w : list R) (facs : list (list (list R)))
+  (V : list (list R)) (q rank : nat),
+  (0 < length (shape X))%nat -> (0 < length facs)%nat ->
+  forall x z : list (list R), (0 < nth 0 (shape X) 0)%nat ->
+  (forall i r : nat, (i < nth 0 (shape X) 0)%nat -> (r < rank)%nat ->
+     cmtf_cert_lhs Rops (shape X) w facs V q rank x i r = cmtf_M Rops X Y w facs V q i r) ->
+  cmtf_obj Rops X Y w (set_nth 0 x facs) V q rank <= cmtf_obj Rops X Y w (set_nth 0 z facs) V q rank.
+Proof. exact cmtf_coupled_block_minimises. Qed.
+Print Assumptions C07_cmtf_coupled_block_minimises.
+
+(* ridge ALS of the Tucker regressor (scalar responses).  The prediction <X_s, G x_k W_k> is linear in the core, with the projected
+   sample X_s x_k W_k' as coefficients, and linear in every factor, the coefficient of W_k[i,b] being the prediction with the unit
+   matrix E_ib in place of W_k (all orders) ... *)
+Theorem C07_tk_inner_core_linear : forall (X : tensor R) (rs : list nat) (core : list R) (Us : list (list (list R))),
+  tk_inner Rops X rs core Us = rsum (prod rs) (fun q => nth q core 0 * tk_core_at Rops X Us (unravel rs q)).
+Proof. exact tk_inner_core_linear. Qed.
+Print Assumptions C07_tk_inner_core_linear.
+
+Theorem C07_tk_inner_fac_linear : forall (X : tensor R) (rs : list nat) (core : list R) (Us : list (list (list R))) (k : nat) (A : list (list R)),
+  (k < length (shape X))%nat -> length rs = length (shape X) -> (k < length Us)%nat ->
+  tk_inner Rops X rs core (set_nth k A Us)
+  = rsum (nth k (shape X) 0%nat) (fun i => rsum (nth k rs 0%nat) (fun b => mget Rops A i b * tkreg_coef Rops X rs core Us k i b)).
+Proof. exact tk_inner_fac_linear. Qed.
+Print Assumptions C07_tk_inner_fac_linear.
+
+(* ... hence a core / a factor satisfying the normal equations of its block minimises  ||y - predictions||^2 + reg ||G||^2  resp.
+   ||y - predictions||^2 + reg ||W_k||_F^2  over ALL cores / matrices (any number of samples, order, ranks >= 1, reg >= 0) *)
+Theorem C07_tkreg_core_block_minimises : forall (Xsl : list (tensor R)) (ysl : list R) (rs : list nat) (Us : list (list (list R))) (reg : R) (G Z : list R),
+  0 <= reg ->
+  (forall q : nat, (q < prod rs)%nat -> tkreg_core_normal_lhs Rops Xsl ysl rs G Us q = reg * nth q G 0) ->
+  tkreg_obj_core Rops Xsl ysl rs G Us reg <= tkreg_obj_core Rops Xsl ysl rs Z Us reg.
+Proof. exact tkreg_core_block_minimises. Qed.
+Print Assumptions C07_tkreg_core_block_minimises.
+
+Theorem C07_tkreg_fac_block_minimises : forall (Xsl : list (tensor R)) (ysl : list R) (sh rs : list nat) (G : list R) (Us : list (list (list R)))
+  (k : nat) (reg : R) (A Z : list (list R)),
+  (forall X : tensor R, In X Xsl -> shape X = sh) -> (k < length sh)%nat -> length rs = length sh -> (k < length Us)%nat ->
+  (0 < nth k rs 0)%nat -> 0 <= reg ->
+  (forall i b : nat, (i < nth k sh 0)%nat -> (b < nth k rs 0)%nat ->
+     tkreg_fac_normal_lhs Rops Xsl ysl rs G Us k A i b = reg * mget Rops A i b) ->
+  tkreg_obj_fac Rops Xsl ysl rs G (set_nth k A Us) k (nth k sh 0%nat) reg
+  <= tkreg_obj_fac Rops Xsl ysl rs G (set_nth k Z Us) k (nth k sh 0%nat) reg.
+Proof. exact tkreg_fac_block_minimises. Qed.
+Print Assumptions C07_tkreg_fac_block_minimises.
+
+(* tensor-ring ALS.  The design matrix of a block is DERIVED: by cyclicity of the trace the entry of a well-formed ring
+   (bond ranks of consecutive cores agree, the last with the first) is  sum_{a,b} G_dim[a, i_dim, b] * Sub[b, a]  with Sub the product
+   of the cores dim+1, .., n, 1, .., dim-1, so the block objective with the sub-chain design matrix IS the true squared error ... *)
+Theorem C07_tr_block_obj_is_sqerr : forall (X : tensor R) (pre post : list (tensor R)),
+  length (shape X) = S (length (pre ++ post)) ->
+  forall G C : tensor R,
+  let r1 := nth 0 (shape (nth 0 (pre ++ C :: post) (mk [] []))) 0%nat in
+  chain_ok r1 pre (nth 0 (shape C) 0%nat) -> chain_ok (nth 2 (shape C) 0%nat) post r1 -> (0 < nth 2 (shape C) 0)%nat ->
+  tr_block_obj Rops X (pre ++ G :: post) (length pre) C = tr_sqerr Rops X (pre ++ C :: post).
+Proof. exact tr_block_obj_is_sqerr. Qed.
+Print Assumptions C07_tr_block_obj_is_sqerr.
+
+(* ... a core satisfying the normal equations of that design matrix minimises the block objective over all cores of the same bond
+   ranks (any order, sizes, ranks; least squares separable over the slices of the updated mode) ... *)
+Theorem C07_tr_block_minimises : forall (X : tensor R) (cs : list (tensor R)) (dim : nat) (G Z : tensor R),
+  (dim < length (shape X))%nat ->
+  nth 0 (shape Z) 0%nat = nth 0 (shape G) 0%nat -> nth 2 (shape Z) 0%nat = nth 2 (shape G) 0%nat ->
+  (forall i j : nat, (i < nth dim (shape X) 0)%nat -> (j < nth 0 (shape G) 0 * nth 2 (shape G) 0)%nat ->
+     tr_normal_lhs Rops X cs dim G i j = 0) ->
+  tr_block_obj Rops X cs dim G <= tr_block_obj Rops X cs dim Z.
+Proof. exact tr_block_minimises. Qed.
+Print Assumptions C07_tr_block_minimises.
+
+(* ... hence the block update never increases ||X - TR(cores)||^2 *)
+Theorem C07_tr_block_descent : forall (X : tensor R) (pre post : list (tensor R)),
+  length (shape X) = S (length (pre ++ post)) ->
+  forall G G' : tensor R,
+  let r1 := nth 0 (shape (nth 0 (pre ++ G :: post) (mk [] []))) 0%nat in
+  let r1' := nth 0 (shape (nth 0 (pre ++ G' :: post) (mk [] []))) 0%nat in
+  chain_ok r1 pre (nth 0 (shape G) 0%nat) -> chain_ok (nth 2 (shape G) 0%nat) post r1 ->
+  chain_ok r1' pre (nth 0 (shape G') 0%nat) -> chain_ok (nth 2 (shape G') 0%nat) post r1' ->
+  nth 0 (shape G') 0%nat = nth 0 (shape G) 0%nat -> nth 2 (shape G') 0%nat = nth 2 (shape G) 0%nat -> (0 < nth 2 (shape G) 0)%nat ->
+  (forall i j : nat, (i < nth (length pre) (shape X) 0)%nat -> (j < nth 0 (shape G') 0 * nth 2 (shape G') 0)%nat ->
+     tr_normal_lhs Rops X (pre ++ G :: post) (length pre) G' i j = 0) ->
+  tr_sqerr Rops X (pre ++ G' :: post) <= tr_sqerr Rops X (pre ++ G :: post).
+Proof. exact tr_block_descent. Qed.
+Print Assumptions C07_tr_block_descent.
+
 (* ---------- non-vacuity: the hypotheses of the theorems above are satisfiable (and the descent can be strict) ---------- *)
 Example C07_cp_nonvacuous :
   let X := mk [2;2]%nat [1;2;3;4] in let w := [1] in let facs := [[[1];[1]]; [[1];[2]]] in
@@ -334,3 +440,30 @@ Example C07_cpreg_nonvacuous :
 Proof.
   cbv zeta. intros i r Hi Hr. assert (r = 0%nat) by lia; subst r. destruct i as [|[|i]]; [| |lia]; vm_compute; ring.
 Qed.
+
+(* orth_all is satisfiable (2 x 2 tensor, first unit vectors as factors); the normal equations of the coupled block too *)
+Example C07_tucker_nonvacuous : orth_all [2;2]%nat [1;1]%nat [[[1];[0]]; [[1];[0]]].
+Proof.
+  assert (H : orthonormal 2 1 (mget Rops [[1];[0]])).
+  { intros a b Ha Hb. assert (a = 0%nat) by lia. assert (b = 0%nat) by lia. subst. vm_compute. ring. }
+  simpl. repeat split; exact H.
+Qed.
+Example C07_cmtf_nonvacuous :
+  let X := mk [2;1]%nat [2;4] in let facs := [[[0];[0]]; [[1]]] in
+  forall i r : nat, (i < 2)%nat -> (r < 1)%nat ->
+  cmtf_cert_lhs Rops (shape X) [1] facs [[1]] 1 1 [[3/2];[3]] i r = cmtf_M Rops X [[1];[2]] [1] facs [[1]] 1 i r.
+Proof.
+  cbv zeta. intros i r Hi Hr. assert (r = 0%nat) by lia; subst r. destruct i as [|[|i]]; [| |lia]; vm_compute; field.
+Qed.
+
+(* one sample X = [1;2] with response 5, reg 0, factor W = (1;2)' of rank 1: the core G = [1] satisfies the core block's normal equations *)
+Example C07_tkreg_nonvacuous :
+  forall q : nat, (q < prod [1]%nat)%nat ->
+  tkreg_core_normal_lhs Rops [mk [2]%nat [1;2]] [5] [1]%nat [1] [[[1];[2]]] q = 0 * nth q [1] 0.
+Proof. intros q Hq. simpl in Hq. assert (q = 0%nat) by lia; subst q. vm_compute. ring. Qed.
+
+(* a well-formed ring of two 1 x 2 x 1 cores: the chain conditions are satisfiable *)
+Example C07_tr_nonvacuous :
+  let G := mk [1;2;1]%nat [1;2] in
+  chain_ok 1 [] (nth 0 (shape G) 0%nat) /\ chain_ok (nth 2 (shape G) 0%nat) [G] 1 /\ (0 < nth 2 (shape G) 0)%nat.
+Proof. cbv zeta. simpl. repeat split; lia. Qed.
